@@ -43,6 +43,19 @@
 (* 1..MaxMembers, homogeneous and heterogeneous) of an                     *)
 (* IndependentModelList; output i of every operation of the list depends   *)
 (* on member i and argument i only.                                        *)
+(*                                                                         *)
+(* OBJECTIVES.  Family = "objective": every constructible configuration    *)
+(* (objective class of gpytorch.mlls x likelihood / noise model x priors   *)
+(* x added loss term x combine_terms).  An objective is a normalised sum   *)
+(* of TERMS (data term, KL, log prior, added loss); element b of every     *)
+(* term is the term of the replica of b: it is reduced over the axes of    *)
+(* the replica (its n data points, the event axes of a parameter) and over *)
+(* nothing else, and it is divided by a number the replica knows (its n,   *)
+(* num_data, the number of members) - never by something that grows with   *)
+(* the batch.  The normalisers and the reductions of the prior terms are   *)
+(* sites (norm_.., prior_..); every configuration is replayed on the triple  *)
+(* lattice (batch ranks 0..2, parameters and data broadcast against each   *)
+(* other) and element b is compared in VALUE with the non-batched replica. *)
 (***************************************************************************)
 EXTENDS Shapes, TLC
 
@@ -50,15 +63,16 @@ CONSTANTS Dims,        \* axis sizes, {1, 2, 3}
           MaxRank,     \* 2
           NPts, MPts,  \* rows of x1 / x2 used by the replay (4, 3)
           DFeat,       \* feature dimension (2)
-          Family,      \* "triple" (batch-shape triples), "list" (member kinds of a model list) or "both"
+          Family,      \* "triple" (batch-shape triples), "list" (member kinds of a model list), "objective" (configurations of the
+                       \*   objectives of gpytorch.mlls) or "both" (all of them: the generation run)
           WithStruct,  \* BOOLEAN: carry the kernel-structure predictions in the case (only the runs that check / dump them pay for them)
           AllRows,     \* BOOLEAN: the structure predictions range over every row count of Rows (else: over the row counts the case is replayed with)
           CheckStructs,\* the structures of StructNames this run evaluates (the structure runs split them: initial states are computed by one thread)
           MaxMembers,  \* longest model list (3)
           Variants,    \* rejected variants of the code the lattice must tell from the code (adequacy of the lattice), subset of
-                       \*   {"diag_own_batch", "fantasy_noise_carry"}
+                       \*   {"diag_own_batch", "fantasy_noise_carry", "norm_numel"}
           CheckSites,  \* the sites whose alignment this run asserts
-          Repaired     \* subset of {"rq_alpha", "const_kernel", "call_diag", "multitask"}: transcribe the repaired arithmetic of
+          Repaired     \* subset of {"rq_alpha", "const_kernel", "call_diag", "multitask", "obj_prior"}: transcribe the repaired arithmetic of
                        \* that site family instead of the arithmetic of the pinned commit (see checks/c08.py REPAIRED)
 
 VARIABLE c
@@ -82,7 +96,8 @@ ASSUME NPts \notin Dims /\ NPts # DFeat /\ DFeat \in Dims       \* NPts is gener
 SiteNames == {"lengthscale_x1", "lengthscale_x2", "outputscale_full", "outputscale_diag", "rq_alpha_full", "rq_alpha_diag",
               "constant_mean", "linear_mean_weights", "linear_mean_bias", "noise", "const_kernel_full", "const_kernel_diag",
               "var_inducing_values", "multitask_task_covar", "call_diag", "call_diag_n1", "call_diag_n2", "call_diag_n3",
-              "call_diag_ignored"}
+              "call_diag_ignored",
+              "norm_exact_mll", "norm_loo", "norm_approx", "prior_exact_ev0", "prior_exact_ev1", "prior_exact_ev2", "prior_approx"}
 
 Site(name, P, D1, D2) ==
   LET Out == ShBc3(P, D1, D2)
@@ -173,6 +188,73 @@ CallDiagIgnoredOutcome(P, D1, n) ==
       fin  == IF eats THEN SubSeq(res, 1, Len(res) - 2) \o <<n>> ELSE res
   IN IF fin = ShBc2(P, D1) \o <<n>> THEN "ok" ELSE "shape"
 
+
+\* ---- objectives: normalised sums of terms ----------------------------------------------------------
+\* classes of gpytorch.mlls that take batched models (SumMarginalLogLikelihood over them: the model lists, ListOps sum_mll / sum_loo;
+\* DeepApproximateMLL / DeepPredictiveLogLikelihood average over their leading axis - samples / quadrature sites, not replicas)
+ObjClasses == {"exact_mll", "loo", "elbo", "pll", "gamma_elbo"}
+ObjIsExact(cls) == cls \in {"exact_mll", "loo"}       \* ExactMarginalLogLikelihood, LeaveOneOutPseudoLikelihood (exact GPs)
+\* likelihood / noise model: GaussianLikelihood, FixedNoiseGaussianLikelihood (+ learn_additional_noise), a Gaussian likelihood over
+\* HeteroskedasticNoise(noise GP), and the non-Gaussian likelihoods with a batch shape (quadrature)
+ObjLiks == {"gaussian", "fixed", "fixed_learn", "hetero", "student_t", "bernoulli", "laplace", "beta"}
+ObjGaussian == {"gaussian", "fixed", "fixed_learn", "hetero"}
+ObjAdded == {"none", "noise_model"}                    \* NoiseModelAddedLossTerm: the marginal log likelihood of the noise GP as an added loss
+ObjConstructible(o) ==
+  /\ ObjIsExact(o.cls) => o.lik \in ObjGaussian /\ o.combine             \* exact inference needs a Gaussian likelihood; no combine_terms
+  /\ o.cls = "gamma_elbo" => o.lik \in ObjGaussian
+  /\ ~ObjIsExact(o.cls) => o.lik # "hetero"                               \* (its noise model needs the inputs: expected_log_prob has none)
+  /\ o.added = "noise_model" => o.lik = "hetero"
+ObjConfigs == {o \in [cls : ObjClasses, lik : ObjLiks, prior : BOOLEAN, added : ObjAdded, combine : BOOLEAN] : ObjConstructible(o)}
+
+ObjTerms(o) == {"data"} \cup (IF ObjIsExact(o.cls) THEN {} ELSE {"kl"}) \cup (IF o.prior THEN {"prior"} ELSE {})
+               \cup (IF o.added # "none" THEN {"added"} ELSE {})
+\* the sites that transcribe the arithmetic of the configuration (the added loss is an ExactMarginalLogLikelihood of the noise GP)
+ObjSites(o) ==
+  (IF o.cls = "exact_mll" THEN {"norm_exact_mll"} ELSE IF o.cls = "loo" THEN {"norm_loo"} ELSE {"norm_approx"})
+  \cup (IF o.added = "noise_model" THEN {"norm_exact_mll"} ELSE {})
+  \cup (IF ~o.prior THEN {} ELSE IF ObjIsExact(o.cls) THEN {"prior_exact_ev0", "prior_exact_ev1", "prior_exact_ev2"} ELSE {"prior_approx"})
+ObjCase(o) == [obj |-> o, terms |-> ObjTerms(o), sites |-> ObjSites(o)]
+
+\* the number the reduced data term is divided by: which tensor the code looks at and what it reads of it
+\*   ExactMarginalLogLikelihood.forward  : function_dist.event_shape.numel()      function_dist: batch Y = broadcast(P, D1), event (n,)
+\*   LeaveOneOutPseudoLikelihood.forward : target.size(-1)                        target: Y + (n,)
+\*   _ApproximateMarginalLogLikelihood   : approximate_dist_f.event_shape[0]      q(f): batch Out = broadcast(P, D1, D2), event (n,)
+\* variant "norm_numel": <that tensor>.numel()
+NormRead(cls) == IF cls = "exact_mll" THEN "event_numel" ELSE IF cls = "loo" THEN "last" ELSE "event_first"
+NormBatch(cls, P, D1, D2) == IF ObjIsExact(cls) THEN ShBc2(P, D1) ELSE ShBc3(P, D1, D2)
+NormCode(cls, bsh, n, V) ==
+  LET sh == bsh \o <<n>>
+      nb == Len(bsh)
+      rd == IF "norm_numel" \in V THEN "numel" ELSE NormRead(cls)
+  IN CASE rd = "numel" -> BProd(sh)
+       [] rd = "last" -> sh[Len(sh)]
+       [] rd = "event_numel" -> BProd(SubSeq(sh, nb + 1, Len(sh)))
+       [] rd = "event_first" -> sh[nb + 1]
+\* the replica divides by its n
+NormOutcome(cls, P, D1, D2, V) == IF NormCode(cls, NormBatch(cls, P, D1, D2), NPts, V) = NPts THEN "ok" ELSE "values"
+
+\* the log prior of a parameter of shape T = P + ev (ev: the axes of ONE replica's parameter).  Element y of the term must be the sum over
+\* the elements of T whose batch index is the replica's, ShUnb(y, P).
+\*   ExactMarginalLogLikelihood._add_other_terms:  res_ndim = res.ndim;
+\*       res.add_(prior_term.view(*prior_term.shape[:res_ndim], -1).sum(dim=-1))
+\*     keeps the first len(Y) axes of T (whatever they are), sums the rest and adds IN PLACE (the kept shape must expand to Y)
+\*   repaired ("obj_prior"): keeps the batch axes of the parameter
+PriorExactOutcome(P, ev, Y) ==
+  LET T   == P \o ev
+      k   == IF "obj_prior" \in Repaired THEN Len(P) ELSE IF Len(Y) <= Len(T) THEN Len(Y) ELSE Len(T)
+      cut == SubSeq(T, 1, k)
+      R   == ShExpand(cut, Y)
+  IN IF R = ShNone THEN "raises"
+     ELSE IF \A y \in ShIndices(Y) : {t \in ShIndices(T) : SubSeq(t, 1, k) = ShUnb(y, cut)} = {t \in ShIndices(T) : SubSeq(t, 1, Len(P)) = ShUnb(y, P)}
+          THEN "ok" ELSE "values"
+\*   _ApproximateMarginalLogLikelihood.forward:  log_prior.add_(prior.log_prob(closure(module)).sum().div(self.num_data))
+\*     sums EVERY element of T into every element of the objective
+PriorApproxOutcome(P, ev, Out) ==
+  LET T == P \o ev
+  IN IF "obj_prior" \in Repaired
+        \/ \A b \in ShIndices(Out) : ShIndices(T) = {t \in ShIndices(T) : SubSeq(t, 1, Len(P)) = ShUnb(b, P)}
+     THEN "ok" ELSE "values"
+
 SiteOutcome(name, P, D1, D2) ==
   IF name = "call_diag" THEN CallDiagOutcome(P, D1, NPts)
   ELSE IF name = "call_diag_ignored" THEN CallDiagIgnoredOutcome(P, D1, NPts)
@@ -180,6 +262,13 @@ SiteOutcome(name, P, D1, D2) ==
   ELSE IF name = "call_diag_n1" THEN CallDiagOutcome(P, D1, 1)          \* rows = the size of a batch axis / of the feature axis
   ELSE IF name = "call_diag_n2" THEN CallDiagOutcome(P, D1, 2)
   ELSE IF name = "call_diag_n3" THEN CallDiagOutcome(P, D1, 3)
+  ELSE IF name = "norm_exact_mll" THEN NormOutcome("exact_mll", P, D1, D2, {})
+  ELSE IF name = "norm_loo" THEN NormOutcome("loo", P, D1, D2, {})
+  ELSE IF name = "norm_approx" THEN NormOutcome("elbo", P, D1, D2, {})
+  ELSE IF name = "prior_exact_ev0" THEN PriorExactOutcome(P, <<>>, ShBc2(P, D1))             \* outputscale, constant of the mean: batch
+  ELSE IF name = "prior_exact_ev1" THEN PriorExactOutcome(P, <<1>>, ShBc2(P, D1))            \* noise: batch + (1,)
+  ELSE IF name = "prior_exact_ev2" THEN PriorExactOutcome(P, <<1, DFeat>>, ShBc2(P, D1))     \* ARD lengthscale: batch + (1, d)
+  ELSE IF name = "prior_approx" THEN PriorApproxOutcome(P, <<1, DFeat>>, ShBc3(P, D1, D2))
   ELSE AlignOutcome(Site(name, P, D1, D2), P)
 
 \* ---- kernel structure: trees of modules, every node with its own batch shape -----------------------
@@ -282,7 +371,8 @@ StructBad(A, B, D, ns, V) == {x \in StructCells(A, B, D, ns, V) : x[4] # "ok"}
 \* member kinds: the likelihood of the member decides which arguments the list has to hand to it
 MemberKinds == {"gaussian", "fixed", "fixed_learn"}      \* GaussianLikelihood, FixedNoiseGaussianLikelihood (learn_additional_noise)
 NeedsNoise(kind) == kind \in {"fixed", "fixed_learn"}    \* its fantasy points need a noise tensor
-ListOps == {"call_train", "call_eval", "likelihood", "sum_mll", "fantasy", "fantasy_fast_pred_var"}
+\* sum_mll / sum_loo: SumMarginalLogLikelihood with mll_cls = ExactMarginalLogLikelihood / LeaveOneOutPseudoLikelihood
+ListOps == {"call_train", "call_eval", "likelihood", "sum_mll", "sum_loo", "fantasy", "fantasy_fast_pred_var"}
 
 \* the `noise` list the caller passes to get_fantasy_model: entry i is member i's own tensor (written i) or None (written 0)
 NoiseArg(kinds) == [i \in 1..Len(kinds) |-> IF NeedsNoise(kinds[i]) THEN i ELSE 0]
@@ -326,6 +416,8 @@ Case(P, D1, D2) ==
                              IN [b |-> b, p |-> ShUnb(b, P), d1 |-> ShUnb(b, D1), d2 |-> ShUnb(b, D2), y |-> ShUnb(b, Y)]]
                ELSE <<>>,
       pred |-> IF ok /\ ~WithStruct THEN [s \in SiteNames |-> SiteOutcome(s, P, D1, D2)] ELSE <<>>,
+      \* the normalisers of the objectives under the rejected variants (norm_numel)
+      vnorm |-> IF ok /\ ~WithStruct THEN [cls \in ObjClasses |-> NormOutcome(cls, P, D1, D2, Variants)] ELSE <<>>,
       \* the size-coincidence dimension: which row counts of Rows this case is replayed with, and their classes
       rows |-> IF ok THEN CaseRowSeq(P, D1, D2) ELSE <<>>,
       \* the triple read as (A, B, D) = (P, D1, D2): composite kernels, the code and the rejected variants
@@ -339,8 +431,11 @@ ListConfigs == UNION {[1..r -> MemberKinds] : r \in 1..MaxMembers}
 
 \* Family = "both": the two families in one run (the generation run); IsTriple tells the states apart
 Init == \/ Family \in {"list", "both"} /\ \E kinds \in ListConfigs : c = ListCase(kinds)
+        \/ Family \in {"objective", "both"} /\ \E o \in ObjConfigs : c = ObjCase(o)
         \/ Family \in {"triple", "both"} /\ \E P \in AllShapes, D1 \in AllShapes, D2 \in AllShapes : c = Case(P, D1, D2)
 IsTriple == "P" \in DOMAIN c
+IsList == "kinds" \in DOMAIN c
+IsObjective == "obj" \in DOMAIN c
 Next == UNCHANGED c
 Spec == Init /\ [][Next]_c
 
@@ -429,10 +524,25 @@ Structure == StructBatchIsBroadcast /\ CoincidencesCovered /\ StructAligned /\ H
 
 \* ---- model lists -------------------------------------------------------------------------------------
 \* output i of every operation of the list reads member i and argument i, nothing else; a member whose entry is None gets no noise
-ListIndependent == ~IsTriple => /\ \A op \in ListOps, i \in 1..Len(c.kinds) : c.deps[op][i] = {i}
-                                /\ \A i \in 1..Len(c.kinds) : c.got[i] = c.noise[i]
+ListIndependent == IsList => /\ \A op \in ListOps, i \in 1..Len(c.kinds) : c.deps[op][i] = {i}
+                             /\ \A i \in 1..Len(c.kinds) : c.got[i] = c.noise[i]
 \* (the same over the variant fields: no invariant of a run - checks/c08.py reads vdeps and requires that some configuration of member
 \* kinds violates it, i.e. that the enumerated lists can tell the variant fantasy_noise_carry from the code)
-ListVariantIndependent == ~IsTriple => \A op \in ListOps, i \in 1..Len(c.kinds) : c.vdeps[op][i] = {i}
+ListVariantIndependent == IsList => \A op \in ListOps, i \in 1..Len(c.kinds) : c.vdeps[op][i] = {i}
+
+\* ---- objectives ---------------------------------------------------------------------------------------
+\* every objective has a data term, the variational ones a KL term and no exact one; every class comes with every likelihood it can be
+\* constructed with, with and without priors; every site of a configuration is a site of the lattice
+ObjectivesWellFormed ==
+  IsObjective => /\ "data" \in c.terms /\ (("kl" \in c.terms) <=> ~ObjIsExact(c.obj.cls)) /\ (("prior" \in c.terms) <=> c.obj.prior)
+                 /\ c.sites \subseteq SiteNames /\ c.sites # {}
+                 /\ \A cls \in ObjClasses, pr \in BOOLEAN : \E o \in ObjConfigs : o.cls = cls /\ o.prior = pr /\ o.lik = "gaussian"
+                 /\ \A cls \in ObjClasses : {o.lik : o \in {x \in ObjConfigs : x.cls = cls}}
+                                             = {l \in ObjLiks : ObjConstructible([cls |-> cls, lik |-> l, prior |-> FALSE, added |-> "none", combine |-> TRUE])}
+\* a normaliser that grows with the batch (variant norm_numel) is visible exactly where the batch of the objective has two elements or more:
+\* the cases with a non-trivial batch are the right class to replay the objectives on
+NormVariantNeedsBatch ==
+  (IsTriple /\ c.ok /\ ~WithStruct) =>
+     \A cls \in ObjClasses : (c.vnorm[cls] # "ok") <=> ("norm_numel" \in Variants /\ BProd(NormBatch(cls, c.P, c.D1, c.D2)) >= 2)
 
 =============================================================================
